@@ -87,12 +87,15 @@ def parse_output(res, out):
     return res
 
 
-def run(module, cfg, workers=16, timeout=600, simulate=None, depth=None, seed=None,
+def run(module, cfg, workers=None, timeout=600, simulate=None, depth=None, seed=None,
         coverage=False, env=None, extra=(), deadlock=True, heap="6g", dfs_queue=False):
     """Run TLC on specs/<module>.tla with specs/<cfg>. Returns TlcResult.
 
     Raises TlcError on machinery failure (parse errors, crashes, timeout w/o result).
     """
+    if workers is None:
+        workers = int(os.environ.get("VF_WORKERS", "16") or 16)
+    timeout = timeout * int(os.environ.get("VF_TIMEOUT_SCALE", "1") or 1)
     meta = tempfile.mkdtemp(prefix="vf-tlc-")
     cmd = ["java", "-XX:+UseParallelGC", "-Xmx" + heap]
     if dfs_queue:
